@@ -3,7 +3,7 @@
 From Coq Require Import List ZArith NArith Bool Permutation.
 From Coq.Strings Require Import Byte.
 Import ListNotations.
-From SV Require Import Text G_flags C08_Model C08_Lemmas C08_Geom.
+From SV Require Import Text G_flags C08_Model C08_Lemmas C08_Geom C08_Depth.
 Local Open Scope Z_scope.
 
 (* the regenerated flag values are what the hand-written model assumes: '+' and '-' are the stranded members,
@@ -41,6 +41,28 @@ Theorem C08_defect_reverse : forall d, (d < 256)%N ->
   (defect_reverse d < 256)%N.
 Proof. exact defect_reverse_spec. Qed.
 Print Assumptions C08_defect_reverse.
+
+(* ... and on an arbitrary bit set (IntFlag keeps unknown bits): involution, acts on the low eight bits as in the table,
+   leaves every higher bit alone, swaps the three left/right pairs *)
+Theorem C08_defect_reverse_all : forall d,
+  defect_reverse (defect_reverse d) = d /\
+  N.land (defect_reverse d) 255 = defect_reverse (N.land d 255) /\
+  N.shiftr (defect_reverse d) 8 = N.shiftr d 8 /\
+  has_flag (defect_reverse d) D_MISS_LEFT = has_flag d D_MISS_RIGHT /\
+  has_flag (defect_reverse d) D_MISS_RIGHT = has_flag d D_MISS_LEFT /\
+  has_flag (defect_reverse d) D_BEYOND_LEFT = has_flag d D_BEYOND_RIGHT /\
+  has_flag (defect_reverse d) D_BEYOND_RIGHT = has_flag d D_BEYOND_LEFT /\
+  has_flag (defect_reverse d) D_UNKNOWN_LEFT = has_flag d D_UNKNOWN_RIGHT /\
+  has_flag (defect_reverse d) D_UNKNOWN_RIGHT = has_flag d D_UNKNOWN_LEFT.
+Proof. exact defect_reverse_all. Qed.
+Print Assumptions C08_defect_reverse_all.
+
+(* Location(start, stop, strand, ...) is rejected exactly for start >= stop or a strand that is not a Strand member *)
+Theorem C08_location_constructor : forall a b s d m,
+  (mk_location a b s d m = None <-> (a >= b \/ is_strand s = false)) /\
+  (forall l, mk_location a b s d m = Some l -> l = mkLoc a b s d m /\ loc_ok l = true).
+Proof. exact location_constructor. Qed.
+Print Assumptions C08_location_constructor.
 
 (* ---- slicing ---- *)
 (* one location [x,y), any window [a,b) (also empty or inverted), shift r: kept iff the two intervals share a position,
@@ -114,8 +136,7 @@ Theorem C08_mirror_loc : forall L l, loc_ok l = true ->
   loc_reverse L l = Some (mirror L l) /\
   lstart (mirror L l) = L - lstop l /\ lstop (mirror L l) = L - lstart l /\
   lstrand (mirror L l) = strand_reverse (lstrand l) /\ ldefect (mirror L l) = defect_reverse (ldefect l) /\
-  lmeta (mirror L l) = lmeta l /\
-  ((ldefect l < 256)%N -> mirror L (mirror L l) = l).
+  lmeta (mirror L l) = lmeta l /\ mirror L (mirror L l) = l.
 Proof. exact mirror_loc. Qed.
 Print Assumptions C08_mirror_loc.
 
@@ -135,8 +156,7 @@ Print Assumptions C08_mirror_list.
 
 (* rc is its own inverse: for every stranded feature, and for unstranded ones outside the tie region (guard tie_ok) *)
 Theorem C08_mirror_involutive_partial : forall L f g,
-  wf_ft f = true -> defects_ok (flocs f) = true -> tie_ok (flocs f) = true ->
-  feature_rc L f = Some g -> feature_rc L g = Some f.
+  wf_ft f = true -> tie_ok (flocs f) = true -> feature_rc L f = Some g -> feature_rc L g = Some f.
 Proof. exact feature_rc_invol. Qed.
 Print Assumptions C08_mirror_involutive_partial.
 
@@ -148,10 +168,27 @@ Print Assumptions C08_mirror_list_involutive_partial.
 (* the guard cannot be dropped: an unstranded feature with locations [0,1) and [0,2) comes back reordered
    (open finding F31 rc_tie_order) *)
 Theorem C08_mirror_involutive_refuted :
-  wf_ft tie_witness = true /\ defects_ok (flocs tie_witness) = true /\ tie_ok (flocs tie_witness) = false /\
+  wf_ft tie_witness = true /\ tie_ok (flocs tie_witness) = false /\
   exists g h, feature_rc 10 tie_witness = Some g /\ feature_rc 10 g = Some h /\ h <> tie_witness.
 Proof. exact mirror_involutive_refuted. Qed.
 Print Assumptions C08_mirror_involutive_refuted.
+
+(* tie_ok is the weakest guard: mirroring twice restores a feature if and only if tie_ok holds ... *)
+Theorem C08_mirror_involutive_iff : forall L f g, wf_ft f = true -> feature_rc L f = Some g ->
+  (feature_rc L g = Some f <-> tie_ok (flocs f) = true).
+Proof. exact feature_rc_invol_iff. Qed.
+Print Assumptions C08_mirror_involutive_iff.
+
+(* ... the failing region is exactly: unstranded, two neighbouring locations with the same start and increasing stop ... *)
+Theorem C08_tie_region_iff : forall t, inv_locs t = true -> stranded t = false ->
+  (tie_ok t = false <-> exists l1 x y l2, t = l1 ++ x :: y :: l2 /\ lstart x = lstart y /\ lstop x < lstop y).
+Proof. exact tie_region_iff. Qed.
+Print Assumptions C08_tie_region_iff.
+
+(* ... and even there only the order changes: coordinates, strands, defects and metadata of every location come back *)
+Theorem C08_mirror_twice_permutation : forall L t, Permutation (spec_rc_locs L (spec_rc_locs L t)) t.
+Proof. exact spec_rc_twice_perm. Qed.
+Print Assumptions C08_mirror_twice_permutation.
 
 (* ---- the LocationTuple invariant ---- *)
 (* constructor: result is a permutation of the argument satisfying the invariant, and a fixpoint of the constructor;
@@ -193,6 +230,16 @@ Theorem C08_in_domain_total : forall o st, wf_fts st = true -> op_ok o st = true
   match o with OSetLocs _ _ => True | _ => apply_op o st <> None end.
 Proof. exact apply_op_total. Qed.
 Print Assumptions C08_in_domain_total.
+
+(* FeatureList.loc_range is (least start, greatest stop) over all locations, (maxsize, -maxsize) when there is none *)
+Theorem C08_loc_range_spec : forall fts,
+  (all_locs fts = [] -> loc_range fts = (maxsize, - maxsize)) /\
+  (all_locs fts <> [] -> (forall l, In l (all_locs fts) -> - maxsize <= lstart l /\ lstop l <= maxsize /\ lstart l < lstop l) ->
+     (forall l, In l (all_locs fts) -> fst (loc_range fts) <= lstart l /\ lstop l <= snd (loc_range fts)) /\
+     (exists l, In l (all_locs fts) /\ lstart l = fst (loc_range fts)) /\
+     (exists l, In l (all_locs fts) /\ lstop l = snd (loc_range fts))).
+Proof. exact loc_range_spec. Qed.
+Print Assumptions C08_loc_range_spec.
 
 (* ---- comparisons ---- *)
 Theorem C08_range_spec : forall t, t <> [] ->
